@@ -117,15 +117,33 @@ Definition good (t : tree) : Prop := counts_ok t /\ labels_sorted t /\ trimmed t
 
 Lemma good_children : forall fin nw ch, good (Node fin nw ch) -> Forall (fun ct => good (snd ct) /\ tlang (snd ct) <> []) ch.
 Proof.
-  intros fin nw ch (Hc & Hl & Ht). inversion Hc; inversion Hl; inversion Ht; subst.
-  clear -H2 H7 H10. induction ch; constructor; inversion H2; inversion H7; inversion H10; subst.
+  intros fin nw ch (Hc & Hl & Ht).
+  inversion Hc as [? ? ? _ Hc']; inversion Hl as [? ? ? _ Hl']; inversion Ht as [? ? ? Ht']; subst.
+  clear Hc Hl Ht. induction ch as [|ct ch IHch]; constructor;
+    inversion Hc'; inversion Hl'; inversion Ht'; subst.
   - unfold good. tauto.
   - apply IHch; auto.
 Qed.
 
+
 Lemma tlang_node : forall fin nw ch,
   tlang (Node fin nw ch) = (if fin then [[]] else []) ++ flat_map (fun ct => map (cons (fst ct)) (tlang (snd ct))) ch.
 Proof. reflexivity. Qed.
+
+Lemma tlang_nw : forall fin nw nw' ch, tlang (Node fin nw ch) = tlang (Node fin nw' ch).
+Proof. reflexivity. Qed.
+
+Lemma tcount_nw : forall fin nw nw' ch, tcount (Node fin nw ch) = tcount (Node fin nw' ch).
+Proof. reflexivity. Qed.
+
+Lemma flat_map_app' : forall {A B} (f : A -> list B) l1 l2, flat_map f (l1 ++ l2) = flat_map f l1 ++ flat_map f l2.
+Proof. intros. induction l1; simpl; auto. rewrite IHl1, app_assoc. reflexivity. Qed.
+
+Lemma tlang_snoc : forall fin nw ch c t,
+  tlang (Node fin nw (ch ++ [(c, t)])) = tlang (Node fin nw ch) ++ map (cons c) (tlang t).
+Proof.
+  intros. rewrite !tlang_node, flat_map_app'. cbn [flat_map fst snd]. rewrite app_nil_r, app_assoc. reflexivity.
+Qed.
 
 (* the chain addSuffix creates: tsuffix sf applied to a node appends the chain for sf *)
 Fixpoint tsuffix (sf : word) (t : tree) : tree :=
@@ -138,6 +156,12 @@ Fixpoint tsuffix (sf : word) (t : tree) : tree :=
   end.
 
 Definition chain (sf : word) : tree := tsuffix sf (Node false 1 []).
+
+Lemma tsuffix_nil : forall f nw ch, tsuffix [] (Node f nw ch) = Node true nw ch.
+Proof. reflexivity. Qed.
+
+Lemma tsuffix_cons : forall c sf f nw ch, tsuffix (c :: sf) (Node f nw ch) = Node f nw (ch ++ [(c, chain sf)]).
+Proof. reflexivity. Qed.
 
 Fixpoint split_last {A} (l : list A) : option (list A * A) :=
   match l with
@@ -167,13 +191,38 @@ Fixpoint tadd (w : word) (t : tree) {struct w} : tree :=
     end
   end.
 
+Lemma tadd_nil : forall f nw ch, tadd [] (Node f nw ch) = Node true (nw + 1) ch.
+Proof. reflexivity. Qed.
+
+Lemma tadd_leaf : forall c w' f nw, tadd (c :: w') (Node f nw []) = tsuffix (c :: w') (Node f (nw + 1) []).
+Proof. reflexivity. Qed.
+
+Lemma tadd_snoc : forall c w' f nw ch0 d t',
+  tadd (c :: w') (Node f nw (ch0 ++ [(d, t')])) =
+  if N.eqb d c then Node f (nw + 1) (ch0 ++ [(c, tadd w' t')])
+  else tsuffix (c :: w') (Node f (nw + 1) (ch0 ++ [(d, t')])).
+Proof. intros. cbn [tadd]. rewrite split_last_app. reflexivity. Qed.
+
 (* the rightmost path of the tree spells v and ends in a node without links *)
 Inductive tspine : tree -> word -> Prop :=
 | tspine_leaf f nw : tspine (Node f nw []) []
 | tspine_step f nw ch0 c t' v : tspine t' v -> tspine (Node f nw (ch0 ++ [(c, t')])) (c :: v).
 
+Lemma app_one_not_nil : forall {A} (l : list A) x, l ++ [x] <> [].
+Proof. intros A l x H. destruct l; discriminate. Qed.
+
+Lemma tspine_nil_inv : forall f nw ch, tspine (Node f nw ch) [] -> ch = [].
+Proof. intros f nw ch H. inversion H; reflexivity. Qed.
+
+Lemma tspine_cons_inv : forall f nw ch c v, tspine (Node f nw ch) (c :: v) ->
+  exists ch0 t', ch = ch0 ++ [(c, t')] /\ tspine t' v.
+Proof. intros f nw ch c v H. inversion H; subst. eauto. Qed.
+
 (* the new word is above the previous one, or there is no previous word *)
 Definition rel (v w : word) (t : tree) : Prop := lex_lt v w \/ (v = [] /\ tfin t = false).
+
+Lemma lex_lt_nil_r : forall v, ~ lex_lt v [].
+Proof. intros [|c v] H; discriminate. Qed.
 
 Lemma lex_lt_cons_inv : forall d v w, lex_lt (d :: v) w ->
   exists c w', w = c :: w' /\ ((d < c)%N \/ (d = c /\ lex_lt v w')).
@@ -183,66 +232,237 @@ Proof.
   destruct (N.compare_spec d c); try discriminate; auto.
 Qed.
 
-Lemma lex_lt_nil_inv : forall w, lex_lt [] w -> w <> [].
-Proof. intros [|c w] H; [discriminate|congruence]. Qed.
+Lemma lex_lt_cons_cons : forall d v c w, lex_lt (d :: v) (c :: w) -> (d < c)%N \/ (d = c /\ lex_lt v w).
+Proof.
+  intros d v c w H. destruct (lex_lt_cons_inv _ _ _ H) as (c1 & w1 & E & HC). inversion E; subst. exact HC.
+Qed.
+
+Lemma rel_nil_inv : forall v t, rel v [] t -> v = [] /\ tfin t = false.
+Proof. intros v t [H|H]; [destruct (lex_lt_nil_r _ H)|exact H]. Qed.
+
+Lemma rel_cons_cons : forall d v c w t, rel (d :: v) (c :: w) t -> (d < c)%N \/ (d = c /\ lex_lt v w).
+Proof. intros d v c w t [H|[H _]]; [apply lex_lt_cons_cons; exact H|discriminate]. Qed.
 
 Lemma tlang_chain : forall sf, tlang (chain sf) = [sf].
 Proof.
-  unfold chain. induction sf; simpl; auto.
-  rewrite IHsf. reflexivity.
+  unfold chain. induction sf as [|c sf IH]; [reflexivity|].
+  rewrite tsuffix_cons. fold (chain sf) in IH. rewrite tlang_snoc, IH. reflexivity.
 Qed.
-
-Lemma flat_map_app' : forall {A B} (f : A -> list B) l1 l2, flat_map f (l1 ++ l2) = flat_map f l1 ++ flat_map f l2.
-Proof. intros. induction l1; simpl; auto. rewrite IHl1, app_assoc. reflexivity. Qed.
 
 Lemma tlang_tsuffix_cons : forall c sf f nw ch,
   tlang (tsuffix (c :: sf) (Node f nw ch)) = tlang (Node f nw ch) ++ [c :: sf].
-Proof.
-  intros. simpl. rewrite flat_map_app'. simpl. fold (chain sf). rewrite tlang_chain. simpl.
-  rewrite app_assoc. reflexivity.
-Qed.
+Proof. intros. rewrite tsuffix_cons, tlang_snoc, tlang_chain. reflexivity. Qed.
 
 (* T3: the language grows by exactly the new word, at the end *)
 Lemma tlang_tadd : forall w t v, tspine t v -> rel v w t -> tlang (tadd w t) = tlang t ++ [w].
 Proof.
-  induction w as [|c w' IH]; intros t v HS HR.
-  - destruct HR as [HR|[-> HF]].
-    + destruct v; [discriminate|]. destruct (lex_lt_cons_inv _ _ _ HR) as (?&?&?&?); discriminate.
-    + inversion HS; subst. simpl in *. subst f. reflexivity.
-  - destruct t as [f nw ch]. inversion HS; subst.
-    + simpl (tadd _ _). apply tlang_tsuffix_cons.
-    + unfold tadd; fold tadd. rewrite split_last_app.
-      destruct HR as [HR|[HR _]]; [|discriminate].
-      destruct (lex_lt_cons_inv _ _ _ HR) as (c1 & w1 & E & HC). inversion E; subst c1 w1. clear E.
-      destruct (N.eqb_spec c0 c) as [->|NE].
-      * destruct HC as [HC|[_ HC]]; [lia|].
-        rewrite !tlang_node, !flat_map_app'. simpl.
-        rewrite (IH t' v0 H2 (or_introl HC)). rewrite map_app. simpl.
-        rewrite !app_nil_r, <- !app_assoc. reflexivity.
-      * apply tlang_tsuffix_cons.
+  induction w as [|c w' IH]; intros [f nw ch] v HS HR.
+  - apply rel_nil_inv in HR. destruct HR as [-> HF]. apply tspine_nil_inv in HS. subst ch.
+    simpl in HF. subst f. reflexivity.
+  - destruct v as [|d v'].
+    + apply tspine_nil_inv in HS. subst ch. rewrite tadd_leaf, tlang_tsuffix_cons. reflexivity.
+    + apply tspine_cons_inv in HS. destruct HS as (ch0 & t' & -> & HS).
+      rewrite tadd_snoc. apply rel_cons_cons in HR.
+      destruct (N.eqb_spec d c) as [->|NE].
+      * destruct HR as [HR|[_ HR]]; [lia|].
+        rewrite !tlang_snoc. rewrite (IH t' v' HS (or_introl HR)), map_app.
+        rewrite (tlang_nw f (nw + 1) nw). rewrite app_assoc. reflexivity.
+      * rewrite tlang_tsuffix_cons. reflexivity.
 Qed.
 
 (* T1 *)
 Lemma tspine_chain : forall sf f nw, tspine (tsuffix sf (Node f nw [])) sf.
 Proof.
-  induction sf; intros; simpl.
+  induction sf as [|c sf IH]; intros.
   - constructor.
-  - apply (tspine_step f nw [] a). apply IHsf.
+  - rewrite tsuffix_cons. apply (tspine_step f nw [] c). apply IH.
 Qed.
+
+Lemma tspine_tsuffix_cons : forall c sf f nw ch, tspine (tsuffix (c :: sf) (Node f nw ch)) (c :: sf).
+Proof. intros. rewrite tsuffix_cons. constructor. apply tspine_chain. Qed.
 
 Lemma tspine_tadd : forall w t v, tspine t v -> rel v w t -> tspine (tadd w t) w.
 Proof.
-  induction w as [|c w' IH]; intros t v HS HR.
-  - destruct HR as [HR|[-> HF]].
-    + destruct v; [discriminate|]. destruct (lex_lt_cons_inv _ _ _ HR) as (?&?&?&?); discriminate.
-    + inversion HS; subst. simpl. constructor.
-  - destruct t as [f nw ch]. inversion HS; subst.
-    + simpl. apply (tspine_step f (nw + 1) [] c). apply tspine_chain.
-    + unfold tadd; fold tadd. rewrite split_last_app.
-      destruct HR as [HR|[HR _]]; [|discriminate].
-      destruct (lex_lt_cons_inv _ _ _ HR) as (c1 & w1 & E & HC). inversion E; subst c1 w1. clear E.
-      destruct (N.eqb_spec c0 c) as [->|NE].
-      * destruct HC as [HC|[_ HC]]; [lia|].
-        constructor. eapply IH; eauto. left; auto.
-      * simpl. constructor. apply tspine_chain.
+  induction w as [|c w' IH]; intros [f nw ch] v HS HR.
+  - apply rel_nil_inv in HR. destruct HR as [-> HF]. apply tspine_nil_inv in HS. subst ch.
+    rewrite tadd_nil. constructor.
+  - destruct v as [|d v'].
+    + apply tspine_nil_inv in HS. subst ch. rewrite tadd_leaf. apply tspine_tsuffix_cons.
+    + apply tspine_cons_inv in HS. destruct HS as (ch0 & t' & -> & HS).
+      rewrite tadd_snoc. apply rel_cons_cons in HR.
+      destruct (N.eqb_spec d c) as [->|NE].
+      * destruct HR as [HR|[_ HR]]; [lia|]. constructor. eapply IH; eauto. left; auto.
+      * apply tspine_tsuffix_cons.
+Qed.
+
+(* ---------------------------------------------------------------- goodness is preserved by tadd *)
+
+Lemma tcount_snoc : forall fin nw ch c t,
+  tcount (Node fin nw (ch ++ [(c, t)])) = (tcount (Node fin nw ch) + tcount t)%Z.
+Proof. intros. unfold tcount. rewrite tlang_snoc, app_length, map_length, Nat2Z.inj_add. reflexivity. Qed.
+
+Lemma counts_ok_inv : forall f nw ch, counts_ok (Node f nw ch) ->
+  nw = tcount (Node f nw ch) /\ Forall (fun ct => counts_ok (snd ct)) ch.
+Proof. intros f nw ch H. inversion H; subst. auto. Qed.
+
+Lemma counts_ok_chain : forall sf, counts_ok (chain sf).
+Proof.
+  unfold chain. induction sf as [|c sf IH].
+  - rewrite tsuffix_nil. constructor; [reflexivity|constructor].
+  - rewrite tsuffix_cons. constructor.
+    + rewrite tcount_snoc. unfold tcount at 2. rewrite tlang_chain. reflexivity.
+    + constructor; [exact IH|constructor].
+Qed.
+
+Lemma counts_ok_tsuffix_cons : forall c sf f nw ch,
+  counts_ok (Node f nw ch) -> counts_ok (tsuffix (c :: sf) (Node f (nw + 1) ch)).
+Proof.
+  intros c sf f nw ch H. apply counts_ok_inv in H. destruct H as [Hn Hc].
+  rewrite tsuffix_cons. constructor.
+  - rewrite tcount_snoc. unfold tcount at 2. rewrite tlang_chain.
+    rewrite (tcount_nw f (nw + 1) nw). cbn [length]. lia.
+  - apply Forall_app. split; [exact Hc|]. constructor; [apply counts_ok_chain|constructor].
+Qed.
+
+Lemma counts_ok_tadd : forall w t v, tspine t v -> rel v w t -> counts_ok t -> counts_ok (tadd w t).
+Proof.
+  induction w as [|c w' IH]; intros [f nw ch] v HS HR HC.
+  - apply rel_nil_inv in HR. destruct HR as [-> HF]. apply tspine_nil_inv in HS. subst ch.
+    simpl in HF. subst f. apply counts_ok_inv in HC. destruct HC as [Hn _].
+    rewrite tadd_nil. constructor; [|constructor]. unfold tcount in *. simpl in *. lia.
+  - destruct v as [|d v'].
+    + apply tspine_nil_inv in HS. subst ch. rewrite tadd_leaf. apply counts_ok_tsuffix_cons. exact HC.
+    + pose proof (tlang_tadd (c :: w') _ _ HS HR) as HL.
+      apply tspine_cons_inv in HS. destruct HS as (ch0 & t' & -> & HS).
+      rewrite tadd_snoc in *. apply rel_cons_cons in HR.
+      destruct (N.eqb_spec d c) as [->|NE].
+      * destruct HR as [HR|[_ HR]]; [lia|].
+        pose proof (counts_ok_inv _ _ _ HC) as [Hn Hc]. apply Forall_app in Hc. destruct Hc as [Hc0 Hc1].
+        constructor.
+        -- unfold tcount in *. rewrite HL, app_length. cbn [length]. lia.
+        -- apply Forall_app. split; [exact Hc0|]. constructor; [|constructor].
+           inversion Hc1; subst. eapply IH; eauto. left; auto.
+      * apply counts_ok_tsuffix_cons. exact HC.
+Qed.
+
+Lemma sorted_snoc : forall l x, StronglySorted N.lt (l ++ [x]) <-> StronglySorted N.lt l /\ Forall (fun y => (y < x)%N) l.
+Proof.
+  induction l as [|a l IH]; intros x; simpl.
+  - split; [intros _; split; constructor|intros _; constructor; constructor].
+  - split.
+    + intro H. inversion H as [|? ? HS HF]; subst. apply IH in HS. destruct HS as [HS HL].
+      apply Forall_app in HF. destruct HF as [HF1 HF2]. inversion HF2; subst.
+      split; constructor; auto.
+    + intros [H HL]. inversion H as [|? ? HS HF]; subst. inversion HL; subst.
+      constructor; [apply IH; auto|]. apply Forall_app. split; auto.
+Qed.
+
+Lemma sorted_snoc_snoc : forall l d c, StronglySorted N.lt (l ++ [d]) -> (d < c)%N -> StronglySorted N.lt ((l ++ [d]) ++ [c]).
+Proof.
+  intros l d c H Hdc. apply sorted_snoc. split; [exact H|].
+  apply sorted_snoc in H. destruct H as [_ HL]. apply Forall_app. split.
+  - eapply Forall_impl; [|exact HL]. simpl. intros. lia.
+  - constructor; [exact Hdc|constructor].
+Qed.
+
+Lemma labels_sorted_inv : forall f nw ch, labels_sorted (Node f nw ch) ->
+  StronglySorted N.lt (map fst ch) /\ Forall (fun ct => labels_sorted (snd ct)) ch.
+Proof. intros f nw ch H. inversion H; subst. auto. Qed.
+
+Lemma labels_sorted_chain : forall sf, labels_sorted (chain sf).
+Proof.
+  unfold chain. induction sf as [|c sf IH].
+  - rewrite tsuffix_nil. constructor; constructor.
+  - rewrite tsuffix_cons. constructor; simpl.
+    + constructor; constructor.
+    + constructor; [exact IH|constructor].
+Qed.
+
+(* appending a chain under a label above the last one *)
+Lemma labels_sorted_tsuffix_cons : forall c sf f nw nw' ch,
+  labels_sorted (Node f nw ch) -> Forall (fun y => (y < c)%N) (map fst ch) ->
+  labels_sorted (tsuffix (c :: sf) (Node f nw' ch)).
+Proof.
+  intros c sf f nw nw' ch H HL. apply labels_sorted_inv in H. destruct H as [HS HC].
+  rewrite tsuffix_cons. constructor.
+  - rewrite map_app. simpl. apply sorted_snoc. auto.
+  - apply Forall_app. split; [exact HC|]. constructor; [apply labels_sorted_chain|constructor].
+Qed.
+
+Lemma labels_lt_last : forall ch0 d (t' : tree) c,
+  StronglySorted N.lt (map fst (ch0 ++ [(d, t')])) -> (d < c)%N ->
+  Forall (fun y => (y < c)%N) (map fst (ch0 ++ [(d, t')])).
+Proof.
+  intros ch0 d t' c H Hdc. rewrite map_app in *. simpl in *. apply sorted_snoc in H. destruct H as [_ HL].
+  apply Forall_app. split.
+  - eapply Forall_impl; [|exact HL]. simpl. intros. lia.
+  - constructor; [exact Hdc|constructor].
+Qed.
+
+Lemma labels_sorted_tadd : forall w t v, tspine t v -> rel v w t -> labels_sorted t -> labels_sorted (tadd w t).
+Proof.
+  induction w as [|c w' IH]; intros [f nw ch] v HS HR HC.
+  - apply labels_sorted_inv in HC. destruct HC. rewrite tadd_nil. constructor; auto.
+  - destruct v as [|d v'].
+    + apply tspine_nil_inv in HS. subst ch. rewrite tadd_leaf.
+      eapply labels_sorted_tsuffix_cons; [exact HC|constructor].
+    + apply tspine_cons_inv in HS. destruct HS as (ch0 & t' & -> & HS).
+      rewrite tadd_snoc. apply rel_cons_cons in HR.
+      pose proof (labels_sorted_inv _ _ _ HC) as [Hs Hc].
+      destruct (N.eqb_spec d c) as [->|NE].
+      * destruct HR as [HR|[_ HR]]; [lia|].
+        apply Forall_app in Hc. destruct Hc as [Hc0 Hc1]. inversion Hc1; subst.
+        constructor.
+        -- rewrite map_app in *. exact Hs.
+        -- apply Forall_app. split; [exact Hc0|]. constructor; [|constructor].
+           eapply IH; eauto. left; auto.
+      * destruct HR as [HR|[HR _]]; [|congruence].
+        eapply labels_sorted_tsuffix_cons; [exact HC|]. apply labels_lt_last; auto.
+Qed.
+
+Lemma trimmed_inv : forall f nw ch, trimmed (Node f nw ch) ->
+  Forall (fun ct => tlang (snd ct) <> [] /\ trimmed (snd ct)) ch.
+Proof. intros f nw ch H. inversion H; subst. auto. Qed.
+
+Lemma trimmed_chain : forall sf, trimmed (chain sf).
+Proof.
+  unfold chain. induction sf as [|c sf IH].
+  - rewrite tsuffix_nil. constructor. constructor.
+  - rewrite tsuffix_cons. constructor. constructor; [|constructor].
+    split; [|exact IH]. simpl. fold (chain sf). rewrite tlang_chain. discriminate.
+Qed.
+
+Lemma trimmed_tsuffix_cons : forall c sf f nw nw' ch,
+  trimmed (Node f nw ch) -> trimmed (tsuffix (c :: sf) (Node f nw' ch)).
+Proof.
+  intros c sf f nw nw' ch H. apply trimmed_inv in H. rewrite tsuffix_cons. constructor.
+  apply Forall_app. split; [exact H|]. constructor; [|constructor].
+  split; [|apply trimmed_chain]. simpl. rewrite tlang_chain. discriminate.
+Qed.
+
+Lemma trimmed_tadd : forall w t v, tspine t v -> rel v w t -> trimmed t -> trimmed (tadd w t).
+Proof.
+  induction w as [|c w' IH]; intros [f nw ch] v HS HR HC.
+  - apply trimmed_inv in HC. rewrite tadd_nil. constructor; auto.
+  - destruct v as [|d v'].
+    + apply tspine_nil_inv in HS. subst ch. rewrite tadd_leaf.
+      eapply trimmed_tsuffix_cons; exact HC.
+    + apply tspine_cons_inv in HS. destruct HS as (ch0 & t' & -> & HS).
+      rewrite tadd_snoc. apply rel_cons_cons in HR.
+      pose proof (trimmed_inv _ _ _ HC) as Hc.
+      destruct (N.eqb_spec d c) as [->|NE].
+      * destruct HR as [HR|[_ HR]]; [lia|].
+        apply Forall_app in Hc. destruct Hc as [Hc0 Hc1]. inversion Hc1 as [|? ? [_ Ht'] _]; subst.
+        constructor. apply Forall_app. split; [exact Hc0|]. constructor; [|constructor]. simpl. split.
+        -- rewrite (tlang_tadd w' t' v' HS (or_introl HR)). apply app_one_not_nil.
+        -- eapply IH; eauto. left; auto.
+      * eapply trimmed_tsuffix_cons; exact HC.
+Qed.
+
+Lemma good_tadd : forall w t v, tspine t v -> rel v w t -> good t -> good (tadd w t).
+Proof.
+  intros w t v HS HR (H1 & H2 & H3). repeat split.
+  - eapply counts_ok_tadd; eauto.
+  - eapply labels_sorted_tadd; eauto.
+  - eapply trimmed_tadd; eauto.
 Qed.
